@@ -56,6 +56,7 @@ def corpus(ctx):
     expect = json.load(open(exp_path))
     res = {'breaking_detected': [], 'breaking_missed': [], 'preserving_silent': [], 'preserving_alarmed': [],
            'not_applicable_on_this_tree': []}
+    todo = []
     for name, e in sorted(expect.items()):
         patch = None
         for d in ('mutants', ):
@@ -67,7 +68,37 @@ def corpus(ctx):
         keep = name.startswith('keep-')
         if not keep and ctx.prop not in e.get('expect', []):
             continue
-        r = scratch.run_patch(patch, [ctx.prop])
+        todo.append((name, patch, keep))
+    # the variants are independent: replay them on scratch copies in parallel worker processes (one scratch target
+    # directory per worker; the dependency build of a worker is primed on first use)
+    jobs = max(1, min(int(os.environ.get('VERIF_JOBS', '12')), (os.cpu_count() or 2) - 2, len(todo)))
+    results = {}
+    if jobs > 1:
+        tmp = tempfile.mkdtemp(prefix='simlint-thorough-')
+        procs = []
+        for i in range(jobs):
+            chunk = todo[i::jobs]
+            if not chunk:
+                continue
+            spec = os.path.join(tmp, 'w%d.json' % i)
+            out = os.path.join(tmp, 'o%d.json' % i)
+            json.dump({'prop': ctx.prop, 'todo': chunk}, open(spec, 'w'))
+            env = dict(os.environ, SCRATCH_TARGET_SUFFIX='-t%d' % i)
+            env.pop('SCRATCH_FROM_HEAD', None)
+            procs.append((subprocess.Popen([sys.executable, os.path.abspath(__file__), '--worker', spec, out], env=env,
+                                           stdout=subprocess.DEVNULL), out, chunk))
+        for pr, out, chunk in procs:
+            pr.wait()
+            if os.path.exists(out):
+                results.update(json.load(open(out)))
+            for name, _p, _k in chunk:
+                results.setdefault(name, {'error': 'worker died (rc=%s)' % pr.returncode})
+        shutil.rmtree(tmp, ignore_errors=True)
+    else:
+        for name, patch, keep in todo:
+            results[name] = scratch.run_patch(patch, [ctx.prop])
+    for name, patch, keep in todo:
+        r = results[name]
         if 'error' in r:
             res['not_applicable_on_this_tree'].append({'variant': name, 'why': r['error'][:120]})
             continue
@@ -173,3 +204,17 @@ def run(ctx, mod, info):
     if w is not None:
         extra['compile_fail_witness'] = w
     ctx.extra = extra
+
+
+if __name__ == '__main__' and sys.argv[1:2] == ['--worker']:
+    import scratch
+    spec = json.load(open(sys.argv[2]))
+    out = {}
+    for name, patch, keep in spec['todo']:
+        try:
+            out[name] = scratch.run_patch(patch, [spec['prop']])
+        except SystemExit as e:
+            out[name] = {'error': 'machinery: %s' % e}
+        except Exception as e:      # a worker never takes the whole tier down
+            out[name] = {'error': 'worker exception: %s: %s' % (type(e).__name__, e)}
+        json.dump(out, open(sys.argv[3], 'w'))
